@@ -31,9 +31,11 @@ pub fn eligible(name: &str) -> bool {
     name.ends_with(".sol") && !name.to_lowercase().ends_with(".t.sol")
 }
 
-/// Names the property does not decide: end in ".sol", are not "*.t.sol", but contain ".t.sol" elsewhere.
+/// Names the property does not decide: end in ".sol", are not "*.t.sol", but contain ".t.sol" elsewhere
+/// in some letter case — under either direction of Unicode case mapping (U+017F 'ſ' upper-cases to 'S'
+/// although no letter lower-cases to it, so ".t.ſol" is ".T.SOL" in upper case only).
 pub fn undecided_name(name: &str) -> bool {
-    eligible(name) && name.to_lowercase().contains(".t.sol")
+    eligible(name) && (name.to_lowercase().contains(".t.sol") || name.to_uppercase().contains(".T.SOL"))
 }
 
 const ELIGIBLE_NAMES: &[&str] = &[
@@ -189,6 +191,24 @@ pub fn scratch_base() -> PathBuf {
     std::env::temp_dir()
 }
 
+/// Remove scratch directories left behind by harness processes that no longer exist (killed by the
+/// watchdog or from outside before their `Scratch` values were dropped).
+pub fn cleanup_stale_scratch() {
+    let base = scratch_base();
+    if let Ok(rd) = std::fs::read_dir(&base) {
+        for e in rd.flatten() {
+            let name = e.file_name().to_string_lossy().to_string();
+            if let Some(rest) = name.strip_prefix("vcheck-") {
+                if let Some(pid) = rest.split('-').next().and_then(|p| p.parse::<u32>().ok()) {
+                    if pid != std::process::id() && !Path::new(&format!("/proc/{pid}")).exists() {
+                        let _ = std::fs::remove_dir_all(e.path());
+                    }
+                }
+            }
+        }
+    }
+}
+
 /// A fresh scratch directory (removed by `Scratch::drop`).
 pub struct Scratch {
     pub path: PathBuf,
@@ -275,6 +295,67 @@ pub fn strip_inert(entries: &[Entry]) -> Vec<Entry> {
             Kind::Link(c) => Some(Entry { name: e.name.clone(), class: e.class, kind: Kind::Link(strip_inert(c)) }),
         })
         .collect()
+}
+
+/// The same tree without the directories reached through a symbolic link.
+pub fn strip_links(entries: &[Entry]) -> Vec<Entry> {
+    entries
+        .iter()
+        .filter_map(|e| match &e.kind {
+            Kind::File(_) => Some(e.clone()),
+            Kind::Dir(c) => Some(Entry { name: e.name.clone(), class: e.class, kind: Kind::Dir(strip_links(c)) }),
+            Kind::Link(_) => None,
+        })
+        .collect()
+}
+
+/// Fixed shapes the random generator does not reach: chains of nested directories with an eligible
+/// file (and optionally an inert one) at every level, and one wide directory.
+/// `files_first`: files are created before (true) or after (false) the sub-directory of their level.
+pub fn shaped_specs(with_inert: bool) -> Vec<(String, Vec<Entry>)> {
+    fn file(name: String, k: usize) -> Entry {
+        Entry { name, class: "eligible", kind: Kind::File(POOL[k % POOL.len()].as_bytes().to_vec()) }
+    }
+    fn inert(k: usize) -> Entry {
+        match k % 3 {
+            0 => Entry { name: format!("T{k}.t.sol"), class: "test-file", kind: Kind::File(b"this is not solidity {".to_vec()) },
+            1 => Entry { name: format!("B{k}.bin"), class: "other", kind: Kind::File(vec![0xff, 0xfe, 0x00, 0x80]) },
+            _ => Entry { name: format!("U{k}.SOL"), class: "other", kind: Kind::File(POOL[k % POOL.len()].as_bytes().to_vec()) },
+        }
+    }
+    fn chain(level: usize, depth: usize, files_first: bool, with_inert: bool) -> Vec<Entry> {
+        let mut v = vec![file(format!("F{level}.sol"), level)];
+        if with_inert {
+            v.push(inert(level));
+        }
+        if level < depth {
+            let d = Entry { name: format!("L{level}"), class: "directory", kind: Kind::Dir(chain(level + 1, depth, files_first, with_inert)) };
+            if files_first {
+                v.push(d);
+            } else {
+                v.insert(0, d);
+            }
+        }
+        v
+    }
+    let mut out = Vec::new();
+    for depth in [5usize, 8, 16, 40] {
+        for files_first in [true, false] {
+            out.push((format!("chain-depth-{depth}-files-{}", if files_first { "first" } else { "last" }), chain(0, depth, files_first, with_inert)));
+        }
+    }
+    let mut wide: Vec<Entry> = Vec::new();
+    for i in 0..300usize {
+        wide.push(file(format!("W{i}.sol"), i));
+        if with_inert && i % 3 == 0 {
+            wide.push(inert(i));
+        }
+        if i == 150 {
+            wide.push(Entry { name: "Sub".into(), class: "directory", kind: Kind::Dir((0..3).map(|j| file(format!("S{j}.sol"), j + 1)).collect()) });
+        }
+    }
+    out.push(("wide-directory-300-files".into(), wide));
+    out
 }
 
 pub fn count(entries: &[Entry], pred: &dyn Fn(&Entry) -> bool) -> usize {
